@@ -10,6 +10,7 @@ import (
 	"io/ioutil"
 	"reflect"
 	"sort"
+	"strings"
 	"sync"
 	"sync/atomic"
 
@@ -119,6 +120,8 @@ type callResult struct {
 }
 
 func callLayout(in *Input, order int) (res callResult) {
+	id := enterCall(in, "getRebalancedNamespacePartitions")
+	defer leaveCall(id)
 	defer func() {
 		if r := recover(); r != nil {
 			res.panicked = r
@@ -130,6 +133,37 @@ func callLayout(in *Input, order int) (res callResult) {
 	res.layout = l
 	res.err = err
 	return
+}
+
+// callNameList calls the driver's second entry point, getRebalancedPartitionsFromNameList
+// (used directly by the balance path), with the per-data-centre name lists of the same nodes.
+func callNameList(in *Input, order int) (res callResult) {
+	id := enterCall(in, "getRebalancedPartitionsFromNameList")
+	defer leaveCall(id)
+	defer func() {
+		if r := recover(); r != nil {
+			res.panicked = r
+		}
+	}()
+	names := pdnode_coord.VerifGetNodeNameList(buildNodes(in.Nodes, order))
+	l, err := pdnode_coord.VerifGetRebalancedPartitionsFromNameList(in.NS, in.Partitions, in.Replica, copyLayout(in.Old), names, in.Ver)
+	res.layout = l
+	res.err = err
+	return
+}
+
+// knownOverlongOldPanic: the documented panic shape outside the property (an old replica list
+// longer than replica whose live nodes are all excluded; getMinMaxLoadForReplica/Leader on an empty tree).
+func knownOverlongOldPanic(in *Input, p interface{}) bool {
+	if !strings.Contains(fmt.Sprint(p), "interface {} is nil, not pdnode_coord.loadItem") {
+		return false
+	}
+	for _, o := range in.Old {
+		if len(o) > in.Replica {
+			return true
+		}
+	}
+	return false
 }
 
 type finding struct {
@@ -158,7 +192,10 @@ func evaluate(in *Input) ([][]string, bool, []finding) {
 	}
 	r1 := callLayout(in, 0)
 	if r1.panicked != nil {
-		add("layout-call-panicked/"+verName(in.Ver), fmt.Sprintf("the layout function panicked: %v", r1.panicked), &r1, nil)
+		if knownOverlongOldPanic(in, r1.panicked) {
+			return nil, false, fs // evidence only (counted by the caller), see DESIGN.md observations
+		}
+		add("layout-panic/"+verName(in.Ver), fmt.Sprintf("the layout function panicked: %v", r1.panicked), &r1, nil)
 		return nil, false, fs
 	}
 	live := make(map[string]string, len(in.Nodes))
@@ -171,6 +208,14 @@ func evaluate(in *Input) ([][]string, bool, []finding) {
 			add("layout-despite-too-few-nodes/"+verName(in.Ver),
 				fmt.Sprintf("%d nodes < replica %d but a layout was returned", len(in.Nodes), in.Replica), &r1, nil)
 		}
+		// the same clause at the driver's second entry point (the balance path calls it directly)
+		rn := callNameList(in, 1)
+		if rn.panicked != nil {
+			add("layout-panic/"+verName(in.Ver), fmt.Sprintf("getRebalancedPartitionsFromNameList with %d nodes < replica %d panicked instead of refusing: %v", len(in.Nodes), in.Replica, rn.panicked), &rn, nil)
+		} else if rn.err == nil || rn.layout != nil {
+			add("layout-despite-too-few-nodes/"+verName(in.Ver),
+				fmt.Sprintf("getRebalancedPartitionsFromNameList: %d nodes < replica %d but a layout was returned", len(in.Nodes), in.Replica), &rn, nil)
+		}
 		return nil, true, fs
 	}
 	if r1.err != nil {
@@ -182,7 +227,7 @@ func evaluate(in *Input) ([][]string, bool, []finding) {
 	for order := 1; order <= 2; order++ {
 		r2 := callLayout(in, order)
 		if r2.panicked != nil {
-			add("layout-call-panicked/"+verName(in.Ver), fmt.Sprintf("the layout function panicked on a repeated call: %v", r2.panicked), &r1, nil)
+			add("layout-panic/"+verName(in.Ver), fmt.Sprintf("the layout function panicked on a repeated call: %v", r2.panicked), &r1, nil)
 			break
 		}
 		if (r2.err == nil) != (r1.err == nil) || !reflect.DeepEqual(r2.layout, l) {
@@ -351,6 +396,9 @@ func (r *runner) runOne(in *Input, chain []Input) [][]string {
 			r.ct.add("v1_layouts_leader_clause_checked", 1)
 		}
 	}
+	if l == nil && !refused && len(fs) == 0 {
+		r.ct.add("layout_panics_known_overlong_old_list_shape", 1) // evidence only
+	}
 	for _, f := range fs {
 		f.w.Chain = chain
 		r.c.Violation(f.sig, f.detail, f.w)
@@ -367,7 +415,8 @@ func runC17(c *vc.Ctx) error {
 		"x partition counts (thorough: all 1..64; quick: 8 per combination: a node count multiple, 64 and six seeded) x namespace names (different ring offsets); " +
 		"(b) uneven dc splits sampled from the seed; (c) v2 chains: fresh layout, then up to 8 steps of remove/add/replace random nodes, each result fed back as oldPartitionNodes; " +
 		"(d) directed histories (with per-seed renamings) and chains on small clusters with uneven data centres (several nodes or a whole data centre lost in one step, a lost node returning, add-then-lose) that reach v2's non-converging balance branch (counted from the driver's 'balance moved too much times' warning). " +
-		"Each input is called 3 times with the node map rebuilt in different insertion orders. " +
+		"Each input is called 3 times with the node map rebuilt in different insertion orders; inputs with nodes < replica are also given to getRebalancedPartitionsFromNameList directly. " +
+		"(0) first of all a concurrent phase: 36 small v2 histories of different clusters are computed by one goroutine (reference) and then recomputed by 12 goroutines at once, any difference is a violation. " +
 		"An input is non-trivial when the driver returned a layout; distinct = distinct (nodes, dcs, partitions, replica, version)."
 	c.Ev.Assume("only old layouts that are themselves results of the driver (chains) are fed back to v2; ISR lists longer/shorter than replica (mid-migration metadata) are exercised by C18, not here")
 	c.Ev.Assume("rack-awareness is demanded only for fresh layouts (oldPartitionNodes=nil) on k*d nodes evenly spread over d>=replica data centres, as the property states")
@@ -375,6 +424,23 @@ func runC17(c *vc.Ctx) error {
 	if c.Replay != "" {
 		return r.replay(c.Replay)
 	}
+
+	stopWatchdog := startWatchdog(c, nil)
+	defer stopWatchdog()
+
+	// (0) concurrent determinism, before the big parallel phases
+	if r.runConcurrent() {
+		fmt.Println("C17: layouts computed concurrently differ from the sequential reference; the remaining (parallel) phases are SKIPPED in this run - with state shared between layout calls they would only risk an endless loop inside the real code")
+		c.Ev.Set("phases_skipped_after_concurrent_violation", true)
+		r.ct.mu.Lock()
+		for k, v := range r.ct.m {
+			c.Ev.Count(k, v)
+		}
+		r.ct.mu.Unlock()
+		return nil
+	}
+
+	ncConcurrent := atomic.LoadInt64(&wc.nonConverging)
 
 	// (a) even split
 	type combo struct{ n, d, rep int }
@@ -497,7 +563,8 @@ func runC17(c *vc.Ctx) error {
 		r.runSmallChain(i)
 	})
 	// every input is evaluated by 3 calls; each call that gave up balancing logged one warning
-	c.Ev.Set("v2_calls_balance_not_converging", atomic.LoadInt64(&wc.nonConverging))
+	c.Ev.Set("v2_calls_balance_not_converging", atomic.LoadInt64(&wc.nonConverging)-ncConcurrent)
+	c.Ev.Set("v2_calls_balance_not_converging_in_concurrent_phase", ncConcurrent)
 	c.Ev.Set("other_driver_warnings", atomic.LoadInt64(&wc.otherWarnings))
 
 	c.Ev.Set("dc_configurations", len(dcConfigs))
